@@ -49,7 +49,7 @@ func scalarIndex(v any) int {
 func hx(s string) string { return "x" + hex.EncodeToString([]byte(s)) }
 
 func enc(v any, out *[]string) {
-	switch x := v.(type) {
+	switch x := untype(v).(type) {
 	case nil:
 		*out = append(*out, "n")
 	case bool:
@@ -181,7 +181,7 @@ func dec(ts []string) (any, []string, bool) {
 // norm gives the canonical Go form of a JSON-like value: nil containers become empty ones
 // (the only canonicalisation the property allows).
 func norm(v any) any {
-	switch x := v.(type) {
+	switch x := untype(v).(type) {
 	case []any:
 		l := make([]any, len(x))
 		for i, e := range x {
@@ -224,7 +224,7 @@ func clone(v any) any {
 
 // strs collects every string (leaves and map keys) of a document.
 func strs(v any, into map[string]bool) {
-	switch x := v.(type) {
+	switch x := untype(v).(type) {
 	case string:
 		into[x] = true
 	case []any:
@@ -240,7 +240,7 @@ func strs(v any, into map[string]bool) {
 }
 
 func hasNull(v any) bool {
-	switch x := v.(type) {
+	switch x := untype(v).(type) {
 	case nil:
 		return true
 	case []any:
@@ -291,7 +291,7 @@ var errTemplate = errors.New("template")
 // action becomes its rendering, everything else (incl. strings without `{{`) is left as it is.
 // collide reports that two keys of one map rendered to the same text (result order-dependent).
 func refSubst(v any, dot any, collide *bool) (any, error) {
-	switch x := v.(type) {
+	switch x := untype(v).(type) {
 	case string:
 		if !strings.Contains(x, "{{") {
 			return x, nil
@@ -410,7 +410,15 @@ func (tc *tcase) specLine() string {
 	return strings.Join(out, " ")
 }
 
-func (tc *tcase) mkSpec(only int) *spec.Unstructured {
+func noHit(string) {}
+
+// mkSpec builds a fresh spec of the case in spelling sp (only ≥ 0: with that env entry alone);
+// nil when the spelling does not exist for this case (spDecoded and the codec changes the document).
+func (tc *tcase) mkSpec(only int, sp int, hit func(string)) *spec.Unstructured {
+	s := sp
+	if sp == spDecoded {
+		s = spAny
+	}
 	u := &spec.Unstructured{Meta: spec.Meta{Namespace: tc.ns}}
 	if len(tc.env) > 0 {
 		u.Env = map[string]spec.Value{}
@@ -419,10 +427,11 @@ func (tc *tcase) mkSpec(only int) *spec.Unstructured {
 		if only >= 0 && i != only {
 			continue
 		}
-		u.Env[e.key] = spec.Value{ID: ids[e.id], Name: e.name, Data: clone(e.data)}
+		u.Env[e.key] = spec.Value{ID: ids[e.id], Name: e.name, Data: spell(e.data, s, hit)}
 	}
-	if tc.fields != nil {
-		u.Fields = clone(tc.fields).(map[string]any)
+	u.Fields = spellFields(tc.fields, s, hit)
+	if sp == spDecoded {
+		return decodedSpec(u)
 	}
 	return u
 }
@@ -477,13 +486,84 @@ type runner struct {
 	c     *lib.Ctx
 	sc    *lib.Script
 	fails []lib.OracleFail
+	sp    int // the spelling being run (for messages)
 }
 
 func (r *runner) fail(class, what string, tc *tcase) {
 	if len(r.fails) < 40 {
+		if r.sp != spAny {
+			what = "[documents spelled `" + spellNames[r.sp] + "`] " + what
+		}
 		r.fails = append(r.fails, lib.OracleFail{Class: class, What: what,
-			Replay: "vals " + tc.valsLine() + "\nspec " + tc.specLine() + "\n# (corpus format: put these two lines in corpus/C18/<name>.ops)"})
+			Replay: "vals " + tc.valsLine() + "\nspec " + tc.specLine() + "\n# (corpus format: put these two lines in corpus/C18/<name>.ops; every case runs in the spellings any, typed, array, decoded)"})
 	}
+}
+
+// obs: what the real Bind and Build did with one spelling of the case.
+type obs struct {
+	u                     *spec.Unstructured
+	bindOut, buildOut     string
+	bindErr, buildErr     error
+	bindPanic, buildPanic string
+	envDot                map[string]any
+}
+
+func (r *runner) real(tc *tcase, u *spec.Unstructured, vals []*value.Value) *obs {
+	c := r.c
+	o := &obs{u: u}
+	o.bindPanic = lib.Safe(func() { o.bindErr = u.Bind(vals...) })
+	switch {
+	case o.bindPanic != "":
+		o.bindOut = "panic"
+		c.Hit("bind-panic")
+		r.fail("panic", "Bind panicked: "+o.bindPanic, tc)
+	case o.bindErr != nil:
+		// the class of every failing entry, each bound on its own (Env is a Go map: which failing
+		// entry Bind meets first is unspecified)
+		set := map[string]bool{}
+		for i := range tc.env {
+			var e1 error
+			u1 := tc.mkSpec(i, r.sp, noHit)
+			if u1 == nil {
+				continue
+			}
+			if p := lib.Safe(func() { e1 = u1.Bind(tc.mkVals()...) }); p != "" {
+				set["panic"] = true
+			} else if e1 != nil {
+				set[errClass(e1)] = true
+			}
+		}
+		cls := strings.Join(sortedKeys(set), "|")
+		if set[errClass(o.bindErr)] {
+			o.bindOut = "err " + cls
+		} else {
+			o.bindOut = "err " + errClass(o.bindErr) + " not-among " + cls
+		}
+		c.Hit("bind-err-" + errClass(o.bindErr))
+	default:
+		o.bindOut = "ok " + strings.Join(envTokens(envFromSpec(u)), " ")
+		c.Hit("bind-ok")
+	}
+	if o.bindOut[:2] == "ok" {
+		o.envDot = map[string]any{}
+		for k, v := range u.Env {
+			o.envDot[k] = clone(v.Data)
+		}
+		o.buildPanic = lib.Safe(func() { o.buildErr = u.Build() })
+		switch {
+		case o.buildPanic != "":
+			o.buildOut = "panic"
+			c.Hit("build-panic")
+			r.fail("panic", "Build panicked: "+o.buildPanic, tc)
+		case o.buildErr != nil:
+			o.buildOut = "err " + errClass(o.buildErr)
+			c.Hit("build-err-" + errClass(o.buildErr))
+		default:
+			o.buildOut = "ok " + strings.Join(fieldsTokens(u.Fields), " ")
+			c.Hit("build-ok")
+		}
+	}
+	return o
 }
 
 func (r *runner) run(tc *tcase) {
@@ -495,8 +575,9 @@ func (r *runner) run(tc *tcase) {
 	sc.Op("spec "+sl, "ok "+sl)
 
 	// ---- real calls first
+	r.sp = spAny
 	vals := tc.mkVals()
-	u := tc.mkSpec(-1)
+	u := tc.mkSpec(-1, spAny, noHit)
 
 	type ib struct {
 		idx []int
@@ -522,61 +603,8 @@ func (r *runner) run(tc *tcase) {
 		}
 	}
 
-	var bindErr error
-	bindOut := ""
-	bindPanic := lib.Safe(func() { bindErr = u.Bind(vals...) })
-	switch {
-	case bindPanic != "":
-		bindOut = "panic"
-		c.Hit("bind-panic")
-		r.fail("panic", "Bind panicked: "+bindPanic, tc)
-	case bindErr != nil:
-		// the class of every failing entry, each bound on its own (Env is a Go map: which failing
-		// entry Bind meets first is unspecified)
-		set := map[string]bool{}
-		for i := range tc.env {
-			var e1 error
-			if p := lib.Safe(func() { e1 = tc.mkSpec(i).Bind(tc.mkVals()...) }); p != "" {
-				set["panic"] = true
-			} else if e1 != nil {
-				set[errClass(e1)] = true
-			}
-		}
-		cls := strings.Join(sortedKeys(set), "|")
-		if set[errClass(bindErr)] {
-			bindOut = "err " + cls
-		} else {
-			bindOut = "err " + errClass(bindErr) + " not-among " + cls
-		}
-		c.Hit("bind-err-" + errClass(bindErr))
-	default:
-		bindOut = "ok " + strings.Join(envTokens(envFromSpec(u)), " ")
-		c.Hit("bind-ok")
-	}
-
-	buildOut := ""
-	var buildErr error
-	buildPanic := ""
-	var envDot map[string]any
-	if bindOut[:2] == "ok" {
-		envDot = map[string]any{}
-		for k, v := range u.Env {
-			envDot[k] = clone(v.Data)
-		}
-		buildPanic = lib.Safe(func() { buildErr = u.Build() })
-		switch {
-		case buildPanic != "":
-			buildOut = "panic"
-			c.Hit("build-panic")
-			r.fail("panic", "Build panicked: "+buildPanic, tc)
-		case buildErr != nil:
-			buildOut = "err " + errClass(buildErr)
-			c.Hit("build-err-" + errClass(buildErr))
-		default:
-			buildOut = "ok " + strings.Join(fieldsTokens(u.Fields), " ")
-			c.Hit("build-ok")
-		}
-	}
+	o0 := r.real(tc, u, vals)
+	bindOut, buildOut, envDot := o0.bindOut, o0.buildOut, o0.envDot
 
 	// ---- text/template table: every string of the case on every data value of the case
 	var dots []any
@@ -648,37 +676,106 @@ func (r *runner) run(tc *tcase) {
 	if envDot != nil {
 		base++
 	}
-	for i, rt := range tc.raw {
-		var got any
-		var err error
-		out := ""
-		if p := lib.Safe(func() { got, err = utemplate.Execute(clone(rt.doc), clone(rt.dot)) }); p != "" {
-			out = "panic"
-			r.fail("panic", "template.Execute panicked: "+p, tc)
-		} else if err != nil {
-			out = "err template"
-		} else {
-			out = "ok " + encS(got)
-		}
-		c.Hit("tmpl-" + out[:2])
-		sc.Op(fmt.Sprintf("tmpl %d %s", base+i, encS(rt.doc)), out)
-		// oracle on the raw walk
-		collide := false
-		want, werr := refSubst(rt.doc, rt.dot, &collide)
-		if out != "panic" && !collide {
-			if (werr != nil) != (err != nil) {
-				r.fail("substitution", fmt.Sprintf("template.Execute(%s) error=%v, reference substitution error=%v", encS(rt.doc), err, werr), tc)
-			} else if err == nil && !reflect.DeepEqual(norm(got), norm(want)) {
-				r.fail("substitution", fmt.Sprintf("template.Execute(%s) = %s, reference substitution = %s", encS(rt.doc), encS(got), encS(want)), tc)
+	hit := func(h string) { c.Hit(h) }
+	fieldStrs := map[string]bool{}
+	if tc.fields != nil {
+		strs(tc.fields, fieldStrs)
+	}
+	// every spelling of the same abstract case: the any-only one above, then the typed ones. The model
+	// gets the same abstract spec again and is compared with what the typed run did; the reference
+	// substitution of the oracle is evaluated on the abstract documents as well.
+	for sp := spAny; sp < nSpellings; sp++ {
+		r.sp = sp
+		o := o0
+		if sp != spAny {
+			o = nil
+			us := tc.mkSpec(-1, sp, hit)
+			switch {
+			case us == nil:
+				c.Hit("spelling-" + spellNames[sp] + "-unavailable")
+			case !specTyped(us):
+				c.Hit("spelling-" + spellNames[sp] + "-same-as-any")
+			default:
+				c.Hit("spelling-" + spellNames[sp] + "-run")
+				o = r.real(tc, us, tc.mkVals())
+				sc.Op("spec "+sl, "ok "+sl)
+				sc.Op("bind", o.bindOut)
+				if o.buildOut != "" {
+					// text/template itself may tell the spellings of its data apart (a missing key of a
+					// map[string]string renders "", of a map[string]any "<no value>"); the model's
+					// TextTemplate table is indexed by the abstract data, so Build is compared with the
+					// model only when both spellings of the environment render every string alike (the
+					// oracle below renders with the real, typed environment in every case).
+					agree := true
+					for str := range fieldStrs {
+						p1, o1, k1 := render(str, o.envDot)
+						p2, o2, k2 := render(str, envDot)
+						if p1 != p2 || o1 != o2 || k1 != k2 {
+							agree = false
+						}
+					}
+					if agree {
+						sc.Op("build", o.buildOut)
+					} else {
+						c.Hit("spelling-renders-differently")
+					}
+				}
 			}
-			if isPlain(rt.doc) && (err != nil || !reflect.DeepEqual(norm(got), norm(rt.doc))) {
-				r.fail("plain-changed", fmt.Sprintf("action-free document %s came back as %s (err %v)", encS(rt.doc), encS(got), err), tc)
+		}
+		if o != nil {
+			// ---- property oracle on Bind / Build (independent of the model)
+			r.oracle(tc, o, tc.mkSpec(-1, sp, noHit))
+		}
+		for i, rt := range tc.raw {
+			var doc any
+			if sp == spDecoded {
+				var ok bool
+				if doc, ok = decodedDoc(rt.doc); !ok {
+					continue
+				}
+			} else {
+				doc = spell(rt.doc, sp, hit)
+			}
+			if sp != spAny && !anyTyped(doc) {
+				continue
+			}
+			in0 := doc
+			if sp != spDecoded {
+				in0 = spell(rt.doc, sp, noHit)
+			} else {
+				in0, _ = decodedDoc(rt.doc)
+			}
+			var got any
+			var err error
+			out := ""
+			if p := lib.Safe(func() { got, err = utemplate.Execute(doc, clone(rt.dot)) }); p != "" {
+				out = "panic"
+				r.fail("panic", "template.Execute panicked: "+p, tc)
+			} else if err != nil {
+				out = "err template"
+			} else {
+				out = "ok " + encS(got)
+			}
+			c.Hit("tmpl-" + out[:2])
+			sc.Op(fmt.Sprintf("tmpl %d %s", base+i, encS(rt.doc)), out)
+			// oracle on the raw walk
+			collide := false
+			want, werr := refSubst(rt.doc, rt.dot, &collide)
+			if out != "panic" && !collide {
+				if (werr != nil) != (err != nil) {
+					r.fail("substitution", fmt.Sprintf("template.Execute(%s) error=%v, reference substitution error=%v", encS(rt.doc), err, werr), tc)
+				} else if err == nil && !reflect.DeepEqual(norm(got), norm(want)) {
+					r.fail("substitution", fmt.Sprintf("template.Execute(%s) = %s, reference substitution = %s", encS(rt.doc), encS(got), encS(want)), tc)
+				}
+				if isPlain(rt.doc) && (err != nil || !reflect.DeepEqual(norm(got), norm(rt.doc))) {
+					r.fail("plain-changed", fmt.Sprintf("action-free document %s came back as %s (err %v)", encS(rt.doc), encS(got), err), tc)
+				} else if isPlain(rt.doc) && !sameSpelling(got, in0) {
+					r.fail("plain-changed", fmt.Sprintf("action-free document %s of Go type %T came back as a %T", encS(rt.doc), in0, got), tc)
+				}
 			}
 		}
 	}
-
-	// ---- property oracle on Bind / Build (independent of the model)
-	r.oracle(tc, u, bindPanic, bindErr, envDot, buildPanic, buildErr)
+	r.sp = spAny
 
 	// ---- evidence
 	for _, e := range tc.env {
@@ -724,7 +821,23 @@ func (r *runner) run(tc *tcase) {
 	}
 }
 
-func (r *runner) oracle(tc *tcase, u *spec.Unstructured, bindPanic string, bindErr error, envDot map[string]any, buildPanic string, buildErr error) {
+func specTyped(u *spec.Unstructured) bool {
+	for _, v := range u.Env {
+		if anyTyped(v.Data) {
+			return true
+		}
+	}
+	for _, v := range u.Fields {
+		if anyTyped(v) {
+			return true
+		}
+	}
+	return false
+}
+
+// oracle judges one run o of the case; in0 is a fresh copy of the spec as it was handed to the run.
+func (r *runner) oracle(tc *tcase, o *obs, in0 *spec.Unstructured) {
+	u, bindPanic, bindErr, envDot, buildPanic, buildErr := o.u, o.bindPanic, o.bindErr, o.envDot, o.buildPanic, o.buildErr
 	if bindPanic != "" {
 		return
 	}
@@ -783,6 +896,10 @@ func (r *runner) oracle(tc *tcase, u *spec.Unstructured, bindPanic string, bindE
 				g.key, g.id, g.name, encS(g.data), w.id, w.name, encS(w.data)), tc)
 			return
 		}
+		if in0 != nil && isPlain(g.data) && isPlain(in0.Env[g.key].Data) && !sameSpelling(g.data, in0.Env[g.key].Data) {
+			r.fail("plain-changed", fmt.Sprintf("env %q: action-free data %s of Go type %T came back as a %T", g.key, encS(g.data), in0.Env[g.key].Data, g.data), tc)
+			return
+		}
 	}
 	// Build
 	if buildPanic != "" {
@@ -821,6 +938,8 @@ func (r *runner) oracle(tc *tcase, u *spec.Unstructured, bindPanic string, bindE
 	if tc.fields != nil && isPlain(tc.fields) {
 		if buildErr != nil || !reflect.DeepEqual(norm(u.Fields), norm(tc.fields)) {
 			r.fail("plain-changed", fmt.Sprintf("action-free fields came back as %s (err %v)", strings.Join(fieldsTokens(u.Fields), " "), buildErr), tc)
+		} else if in0 != nil && !sameSpelling(u.Fields, in0.Fields) {
+			r.fail("plain-changed", fmt.Sprintf("action-free fields %s came back with other Go types: %#v, was %#v", strings.Join(fieldsTokens(u.Fields), " "), u.Fields, in0.Fields), tc)
 		}
 	}
 }
@@ -878,11 +997,13 @@ func genStr(r *lib.RNG, tmpls []string, pTmpl, pBad int) string {
 
 // genDoc: JSON-like document, depth ≤ 4, with nulls, empty and nil containers, scalars.
 func genDoc(r *lib.RNG, depth int, tmpls []string, pTmpl, pBad int) any {
-	w := []int{5, 2, 2, 2, 3, 3}
+	w := []int{5, 2, 2, 2, 3, 3, 3}
 	if depth <= 0 {
-		w[4], w[5] = 0, 0
+		w[4], w[5], w[6] = 0, 0, 0
 	}
 	switch r.Weighted(w) {
+	case 6:
+		return genStrContainer(r, tmpls, pTmpl, pBad)
 	case 0:
 		return genStr(r, tmpls, pTmpl, pBad)
 	case 1:
@@ -903,6 +1024,54 @@ func genDoc(r *lib.RNG, depth int, tmpls []string, pTmpl, pBad int) any {
 		return l
 	default:
 		return genMap(r, depth, tmpls, pTmpl, pBad)
+	}
+}
+
+// genStrContainer: containers that have a typed Go spelling (all leaves strings): a list of strings,
+// a list of string lists, a map of strings, a map of string lists, a list of string maps.
+func genStrContainer(r *lib.RNG, tmpls []string, pTmpl, pBad int) any {
+	sl := func() any {
+		n := r.Intn(4)
+		l := make([]any, 0, n)
+		for i := 0; i < n; i++ {
+			l = append(l, genStr(r, tmpls, pTmpl, pBad))
+		}
+		return l
+	}
+	sm := func(val func() any) any {
+		m := map[string]any{}
+		n := r.Range(1, 3)
+		for i := 0; i < n; i++ {
+			k := lib.Pick(r, []string{"a", "b", "c", "key", "", "k k"})
+			if pTmpl > 0 && r.Chance(1, 6) {
+				k = fmt.Sprintf("t%d-%s", i, lib.Pick(r, tmpls))
+			}
+			m[k] = val()
+		}
+		return m
+	}
+	str := func() any { return genStr(r, tmpls, pTmpl, pBad) }
+	switch r.Weighted([]int{4, 2, 3, 2, 1}) {
+	case 0:
+		return sl()
+	case 1:
+		n := r.Range(1, 3)
+		l := make([]any, 0, n)
+		for i := 0; i < n; i++ {
+			l = append(l, sl())
+		}
+		return l
+	case 2:
+		return sm(str)
+	case 3:
+		return sm(sl)
+	default:
+		n := r.Range(1, 2)
+		l := make([]any, 0, n)
+		for i := 0; i < n; i++ {
+			l = append(l, sm(str))
+		}
+		return l
 	}
 }
 
@@ -1126,11 +1295,12 @@ func parseCorpus(lines []string) ([]*tcase, error) {
 // ------------------------------------------------------------------ entry point
 
 func Run(c *lib.Ctx) {
-	c.Rule = "one case = a value set (≤4 values: anonymous / id / name / id+name, namespaces ns1, ns2, \"\"), a spec (namespace, ≤3 env entries by id / name / id+name / anonymous / missing with string, nested, null or scalar data, fields = nil or a JSON-like map of depth ≤4 with nulls, empty and nil containers, scalars, plain and templated strings and keys, occasional malformed templates) and sometimes a direct template.Execute probe; IsBound (3 value subsets), Bind, Build and Execute run on the real code and on the Lean model; a case is non-trivial when it has an environment or a probe, distinct by its full text"
+	c.Rule = "one case = a value set (≤4 values: anonymous / id / name / id+name, namespaces ns1, ns2, \"\"), a spec (namespace, ≤3 env entries by id / name / id+name / anonymous / missing with string, nested, null or scalar data, fields = nil or a JSON-like map of depth ≤4 with nulls, empty and nil containers, scalars, plain and templated strings and keys, occasional malformed templates) and sometimes a direct template.Execute probe; each case in four Go spellings of its documents (any / typed / array / decoded); IsBound (3 value subsets), Bind, Build and Execute run on the real code and on the Lean model; a case is non-trivial when it has an environment or a probe, distinct by its full text"
 	c.Assumptions = []string{
 		"text/template is trusted and enters the model as the parameter TextTemplate; the theorems assume only `plain s → parse s ∧ exec s dot = s` (checked on every action-free string of every case by the harness)",
 		"Go's unspecified map iteration order (Meta.Env, reflect MapKeys, mapNode.children) is a parameter of the model; compared observations are order-free (keys sorted, error classes of all failing entries); cases where two templated keys of one map render to the same text are generated only without collisions",
-		"documents are JSON-like (nil, bool, numbers, string, []any, map[string]any); numbers are opaque to the walk; nil and empty containers are identified (the code returns the empty container for both)",
+		"documents are JSON-like (nil, bool, numbers, string, lists, string-keyed maps); numbers are opaque to the walk; nil and empty containers are identified (the code returns the empty container for both)",
+		"Go spellings: every case runs with its documents (Fields values, env Data, probe documents) spelled four ways: []any / map[string]any only; typed containers ([]string, [][]string, map[string]string, map[string][]string, []map[string]string wherever all leaves are strings); the same with [N]string arrays; and as types.Unmarshal of the encoded spec yields them (all-string lists come back as []string, all-string maps as map[string]string). The model and the reference substitution see the abstract document; a typed run is compared with the model on the same abstract spec (Build only when text/template renders every string of the fields alike on both spellings of the environment: a missing key of a map[string]string renders \"\", of a map[string]any \"<no value>\"); an action-free document must also come back with the Go types it had",
 	}
 	c.Trusted = []string{"text/template (Parse/Execute of each string, recorded by the harness from the real library)"}
 	rn := &runner{c: c, sc: &lib.Script{}}
